@@ -14,16 +14,22 @@ import Mathlib.Tactic.Push
 
 namespace Lemmas.JTable
 
-/-- Boolean test for one step `a → b`: strictly increasing and `|(b - a) - h| ≤ tol`
-(written without `abs`). -/
-def stepOK (h tol a b : Rat) : Bool :=
-  decide (a < b) && decide (b - a - h ≤ tol) && decide (h - (b - a) ≤ tol)
+/-- `p ≤ q` on `Rat`, decided by cross-multiplication of numerators/denominators (this form is
+several times cheaper for `decide +kernel` than `Rat.sub`/`Rat.blt`). -/
+def leX (p q : Rat) : Bool := decide (p.num * q.den ≤ q.num * p.den)
 
-/-- The same as a proposition. -/
-def Step (h tol a b : Rat) : Prop := a < b ∧ b - a - h ≤ tol ∧ h - (b - a) ≤ tol
+theorem leX_iff {p q : Rat} : leX p q = true ↔ p ≤ q := by
+  simp [leX, Rat.le_iff]
+
+/-- Boolean test for one step `a → b`: strictly increasing and `h - tol ≤ b - a ≤ h + tol`. -/
+def stepOK (h tol a b : Rat) : Bool :=
+  decide (0 < (b - a).num) && leX (h - tol) (b - a) && leX (b - a) (h + tol)
+
+/-- The same as a proposition: `a < b` and `|(b - a) - h| ≤ tol` (written without `abs`). -/
+def Step (h tol a b : Rat) : Prop := a < b ∧ h - tol ≤ b - a ∧ b - a ≤ h + tol
 
 theorem stepOK_iff {h tol a b : Rat} : stepOK h tol a b = true ↔ Step h tol a b := by
-  simp [stepOK, Step, and_assoc]
+  simp [stepOK, Step, leX_iff, and_assoc, Rat.num_pos]
 
 /-- every pair of adjacent entries of the list passes `stepOK`. -/
 def adjOK (h tol : Rat) : List Rat → Bool
@@ -160,6 +166,24 @@ theorem length_joinChunks : ∀ (rest : List (List Rat)) (c : List Rat), linksOK
       simp only [joinChunks, List.length_append, List.length_dropLast, List.length_cons,
         List.map_cons, List.sum_cons] at ih ⊢
       omega
+
+/-- every entry `l[j]` lies in `[lo + (s+j)·hg, hi + (s+j)·hg]` (comparison with an exact affine grid,
+e.g. `numpy.linspace`; `lo = x₀ - t`, `hi = x₀ + t`). -/
+def gridOK (lo hi hg : Rat) : Nat → List Rat → Bool
+  | _, [] => true
+  | s, q :: l => leX (lo + s * hg) q && leX q (hi + s * hg) && gridOK lo hi hg (s + 1) l
+
+theorem gridOK_getElem {lo hi hg : Rat} : ∀ (l : List Rat) (s : Nat), gridOK lo hi hg s l = true →
+    ∀ (j : Nat) (hj : j < l.length),
+      lo + ((s + j : Nat) : Rat) * hg ≤ l[j] ∧ l[j] ≤ hi + ((s + j : Nat) : Rat) * hg
+  | [], _, _, j, hj => by simp at hj
+  | q :: l, s, hok, 0, _ => by
+      simp only [gridOK, Bool.and_eq_true, leX_iff] at hok
+      simpa using hok.1
+  | q :: l, s, hok, j + 1, hj => by
+      simp only [gridOK, Bool.and_eq_true] at hok
+      have := gridOK_getElem l (s + 1) hok.2 j (by simpa using hj)
+      simpa [Nat.add_assoc, Nat.add_comm 1 j] using this
 
 /-- all elements of the joined table lie between the first and the last one. -/
 theorem pairwise_lt_bounds {J : List Rat} (hp : J.Pairwise (· < ·)) {x0 x1 : Rat}
